@@ -26,6 +26,7 @@ class _S:
 
 
 class CksWorld(World):
+    prop = P
     name = "CKSUM"
     uses_sandbox = False
 
